@@ -20,9 +20,9 @@ from lib import driver as D
 END_OF_BLOCK = re.compile(r'^\{"cls":"[A-Z]","d":1,')
 CHUNK = 40000          # events per TLC run, cut at evaluation-block boundaries
 TWINS = {"C06": "andFalseNeedsBoth", "C05": "intDecimalNoPromote", "C08": "c08twins", "C14": "byteLength", "C13": "toIntegerAcceptsDecimalString", "C09": "weekIs5Days",
-         "C10": "c10twins", "C07": "concatEmptyIsEmpty"}
+         "C10": "c10twins", "C07": "concatEmptyIsEmpty", "C12": "isNeverSubtype"}
 # the laws a (composite) wrong variant must make the recorded trace break - each of them, or the trace does not exercise that law
-TWIN_LAWS = {"c08twins": ("arith", "mathfn"), "c10twins": ("setfn",), "concatEmptyIsEmpty": ("concat",)}
+TWIN_LAWS = {"c08twins": ("arith", "mathfn"), "c10twins": ("setfn",), "concatEmptyIsEmpty": ("concat",), "isNeverSubtype": ("typeop",)}
 # value laws (eqval/cmpval C05, arith C08, strfn C14): the node whose logged outcome the binding probe corrupts
 VALUE_PROBE = {"C05": ("Equality", "eqval"), "C08": ("Arithmetic", "arith"), "C14": ("Function", "strfn"), "C13": ("Function", "convfn"), "C10": ("Function", "setfn")}
 
@@ -75,8 +75,11 @@ def judge_trace(ctx, path, mutant="none", tag="nodetrace"):
     with open(os.path.join(d, cfg), "w") as f:
         f.write('SPECIFICATION Spec\nCONSTANT Mutant = "%s"\nINVARIANT StackBounded\nPOSTCONDITION TraceConsumed\n' % mutant)
     verdicts = []
+    types = ctx.path("machine_types.json")
+    if not os.path.exists(types):        # FHIR type name -> kind, from the google/fhir descriptors (harness c02 types)
+        D.run_harness(ctx, D.build_harness(ctx, "c02"), ["types", types])
     for k, part in enumerate(parts):
-        D.write_params(ctx, {"ObsFile": part})
+        D.write_params(ctx, {"ObsFile": part, "TypesFile": types})
         r = D.run_tlc(ctx, "FPNodeTrace", cfg, workers=1, timeout=1800, tag="%s-%s-%d" % (tag, mutant, k + 1), expect_violation=True)
         if r.violated or r.error:
             raise D.Inconclusive("node trace: part %d of the trace is not a behaviour of the stack machine (%s)\n%s" % (
